@@ -26,11 +26,24 @@ pub fn backend() -> &'static str {
     }
 }
 
+/// A panic as a transcript entry. Both builds are the SAME source, so a panic raised by the library's own code (an
+/// `expect`, an index, an overflow check under /repo/src) must carry the same message at the same place in both; a
+/// panic raised inside a back end's own crate is only recorded as such (the two crates word theirs differently).
+fn panic_desc(m: &str) -> String {
+    match mc::util::library_panic_location(m) {
+        // src/bigint.rs holds one arm per back end: a panic there may legitimately sit on different lines in the two builds
+        Some(loc) if loc.starts_with("src/bigint.rs") => "panic at src/bigint.rs".to_string(),
+        Some(loc) if loc.starts_with("src/") => format!("panic at {loc}: {}", m.replace('\n', " ").replace('\t', " ")),
+        Some(_) => "panic inside a dependency".to_string(),
+        None => "panic".to_string(),
+    }
+}
+
 fn login_line(c: &Case) -> String {
     let id = format!("login|{}|{}|{}|{}|{}|{}|{}|{}", c.layer, c.reg_user, c.reg_pass, c.typed_user, c.typed_pass, hex(&c.salt), hex(&c.b), hex(&c.a));
     let obs = |roundtrip: bool| match real_login(&LoginInput { reg_user: &c.reg_user, reg_pass: &c.reg_pass, typed_user: &c.typed_user, typed_pass: &c.typed_pass, salt: c.salt, b: c.b, a: c.a, storage_roundtrip: roundtrip }) {
         Ok((r, _, _)) => format!("ok v={} B={} A={} M1={} M2={} Ks={} Kc={}", hex(&r.v), hex(&r.b_pub), hex(&r.a_pub), hex(&r.m1), hex(&r.m2), hex(&r.k_server), hex(&r.k_client)),
-        Err(LoginFail::Panic(stage, _)) => format!("panic@{stage}"),
+        Err(LoginFail::Panic(stage, m)) => format!("panic@{stage} {}", panic_desc(&m)),
         Err(LoginFail::Refused(stage, _)) => format!("refused@{stage}"),
         Err(LoginFail::Rng(m)) => format!("rng-mismatch {m}"),
         Err(LoginFail::Redrawn) => "skipped: the library draws again for a degenerate scripted value".to_string(),
@@ -178,7 +191,7 @@ pub fn transcript(tier: Tier, seed: u64) -> Vec<String> {
                         });
                         let o = match r {
                             Ok((ap, m1)) => format!("A={} M1={}", hex(&ap), hex(&m1)),
-                            Err(_) => "panic".into(),
+                            Err(m) => panic_desc(&m),
                         };
                         out.push(format!("group|{mname}|g={g}|a={}|B={}\t{o}", hex(a), hex(b)));
                     }
@@ -200,7 +213,7 @@ pub fn transcript(tier: Tier, seed: u64) -> Vec<String> {
         let tt = U::from_le_bytes(&t).rem(&n);
         let v = U::submod(&tt, &gb, &n).mulmod(&inv3, &n).to_le_padded::<32>();
         let (r, _, _) = with_script(&le32_from_u64(5), || *SrpVerifier::from_database_values(ns("A"), v, [0u8; 32]).into_proof().server_public_key());
-        lines.push(format!("ownB|{}\t{}", hex(&t), r.map(|b| hex(&b)).unwrap_or("panic".into())));
+        lines.push(format!("ownB|{}\t{}", hex(&t), r.map(|b| hex(&b)).unwrap_or_else(|m| panic_desc(&m))));
     }
     for (ci, (user, pass)) in [("alice", "password123"), ("A", "A")].iter().enumerate() {
         let (un, pn) = (refmodel::misc::normalize(user).unwrap(), refmodel::misc::normalize(pass).unwrap());
@@ -224,7 +237,7 @@ pub fn transcript(tier: Tier, seed: u64) -> Vec<String> {
                 });
                 let o = match r {
                     Ok((ap, m1)) => format!("A={} M1={}", hex(&ap), hex(&m1)),
-                    Err(_) => "panic".into(),
+                    Err(m) => panic_desc(&m),
                 };
                 lines.push(format!("hostileB|{ci}|{bi}|a={}\t{o}", hex(&a)));
             }
@@ -234,7 +247,7 @@ pub fn transcript(tier: Tier, seed: u64) -> Vec<String> {
     for (u, p) in creds(true) {
         for s in salts(seed, true) {
             let (r, _, _) = with_script(&s, || *SrpVerifier::from_username_and_password(ns(u), ns(p)).password_verifier());
-            lines.push(format!("verifier|{u}|{p}|{}\t{}", hex(&s), r.map(|v| hex(&v)).unwrap_or("panic".into())));
+            lines.push(format!("verifier|{u}|{p}|{}\t{}", hex(&s), r.map(|v| hex(&v)).unwrap_or_else(|m| panic_desc(&m))));
         }
     }
     lines.sort();
